@@ -551,6 +551,179 @@ fn hchild() -> std::sync::Arc<HChild> {
     std::sync::Arc::new(HChild { signer, keys: [0, 1] })
 }
 
+//------------ concurrent collection of a waiting response (engine E2) -------
+
+/// The issue request of the harness-played child for key `key`.
+fn hchild_issue_msg(w: &World, h: &HChild, key: usize) -> Result<rpki::ca::provisioning::Message, String> {
+    use rpki::ca::provisioning::{self, IssuanceRequest, RequestResourceLimit, ResourceClassName};
+    let me: rpki::ca::idexchange::ChildHandle = ca("h1").convert();
+    let ta: rpki::ca::idexchange::ParentHandle = ca("ta").convert();
+    let list = provisioning::Message::list(me.clone().convert(), ta.clone().convert());
+    let reply = w.krill.ca_manager().verif_local_rfc6492(&ca("ta"), list, &w.actor, &w.krill).map_err(|e| format!("list: {e}"))?;
+    let class = match reply.into_payload() {
+        provisioning::Payload::ListResponse(l) => l.classes().first().map(|c| c.class_name().to_string()),
+        _ => None,
+    }
+    .ok_or("no class in the list response")?;
+    let csr = h.signer.csr(h.keys[key], "rsync://localhost/repo/h1/0/");
+    Ok(provisioning::Message::issue(me.convert(), ta.convert(), IssuanceRequest::new(ResourceClassName::from(class), RequestResourceLimit::new(), csr)))
+}
+
+fn reply_kind(r: Result<rpki::ca::provisioning::Message, krill::commons::error::Error>, h: &HChild) -> String {
+    use rpki::ca::provisioning;
+    match r {
+        Ok(reply) => match reply.into_payload() {
+            provisioning::Payload::IssueResponse(i) => {
+                let ki = i.into_issued().cert().subject_key_identifier();
+                match (0..2).find(|k| h.signer.public_key(h.keys[*k]).key_identifier() == ki) {
+                    Some(k) => format!("issue-key{k}"),
+                    None => "issue-unknown-key".into(),
+                }
+            }
+            provisioning::Payload::ErrorResponse(e) => format!("error {}", e.status()),
+            _ => "other".into(),
+        },
+        Err(e) => format!("failed: {e}"),
+    }
+}
+
+/// One execution: responses for the child's key(s) are waiting at the proxy;
+/// the child's requests arrive on two threads at the same time (`variant`
+/// "same-key": both ask for key 0; "two-keys": one for each key).
+fn collect_exec(template: &std::path::Path, variant: &str, prefix: &[usize]) -> crate::e2::ExecOutcome {
+    let mut out = crate::e2::ExecOutcome::default();
+    if let Err(e) = crate::e3::copy_dir(template, std::path::Path::new(".")) {
+        out.violations.push(("machinery".into(), format!("copy: {e}")));
+        return out;
+    }
+    let w = match World::reopen(WorldCfg::default()) {
+        Ok(w) => w,
+        Err(e) => {
+            out.violations.push(("machinery".into(), e.to_string()));
+            return out;
+        }
+    };
+    let h = hchild();
+    let keys: [usize; 2] = if variant == "same-key" { [0, 0] } else { [0, 1] };
+    let mut msgs = Vec::new();
+    for k in keys {
+        match hchild_issue_msg(&w, &h, k) {
+            Ok(m) => msgs.push(m),
+            Err(e) => {
+                out.violations.push(("machinery".into(), e));
+                return out;
+            }
+        }
+    }
+    let mut bodies: Vec<Box<dyn FnOnce() -> Vec<String> + Send>> = Vec::new();
+    for m in msgs {
+        let (k, a, h2) = (w.krill.clone(), w.actor.clone(), h.clone());
+        bodies.push(Box::new(move || vec![reply_kind(k.ca_manager().verif_local_rfc6492(&ca("ta"), m, &a, &k), &h2)]));
+    }
+    let result = crate::e2::run_schedule(bodies, prefix, 400);
+    out.result = result.clone();
+    if let Some(d) = &result.deadlock {
+        out.violations.push(("deadlock".into(), d.clone()));
+        return out;
+    }
+    let replies: Vec<String> = result.outputs.iter().map(|o| o.join(",")).collect();
+    for o in &replies {
+        if o.starts_with("PANIC") {
+            out.violations.push(("panic".into(), o.clone()));
+        }
+    }
+    // each waiting response is handed out exactly once
+    for key in 0..2 {
+        let asked = keys.iter().filter(|k| **k == key).count();
+        if asked == 0 {
+            continue;
+        }
+        let got = replies.iter().filter(|r| **r == format!("issue-key{key}")).count();
+        if got != 1 {
+            out.violations.push((
+                "delivery-count".into(),
+                format!("the one response waiting for key {key} of h1 was handed to the child {got} times by {asked} concurrent request(s) (replies: {replies:?})"),
+            ));
+        }
+    }
+    // ... and is gone from the proxy afterwards
+    let p = proxy_json(&w);
+    let waiting = p["child_details"]["h1"]["open_responses"].as_object().map(|o| o.len()).unwrap_or(0);
+    if waiting != 0 {
+        out.violations.push(("response-kept".into(), format!("after the child collected, the proxy still holds {waiting} response(s) for it (replies: {replies:?})")));
+    }
+    if w.krill.ca_manager().get_trust_anchor_proxy().is_err() {
+        out.violations.push(("load".into(), "the proxy does not load after the concurrent requests".into()));
+    }
+    out.outcome = replies.join(" | ");
+    out
+}
+
+pub fn run_concurrent_collect(tier: &Tier, out: &mut crate::report::Outcome) -> Value {
+    let root = crate::e1run::scratch_root().with_extension("c15i");
+    let _guard = crate::e1run::ScratchGuard(root.clone());
+    let _ = std::fs::remove_dir_all(&root);
+    std::fs::create_dir_all(&root).unwrap();
+    let template = root.join("template");
+    std::fs::create_dir_all(&template).unwrap();
+    let (built, _) = crate::e3::fork_in_dir(&template, || -> Result<(usize, usize), String> {
+        let mut w = build_hchild()?;
+        let mut m = C15Model { ta_pem: ta_pem(), hchild: Some(hchild()), ..Default::default() };
+        for op in [Op::TaChildIssue { key: 0 }, Op::TaChildIssue { key: 1 }, Op::TaMake, Op::TaSign { slot: 0, tamper: 0 }, Op::TaDeliver { slot: 0, tamper: 0 }] {
+            let o = m.apply(&mut w, &op);
+            if !o.ok {
+                return Err(format!("{op}: {:?}", o.err));
+            }
+        }
+        let p = proxy_json(&w);
+        let waiting = p["child_details"]["h1"]["open_responses"].as_object().map(|o| o.len()).unwrap_or(0);
+        Ok((crate::keys::persistent_used(), waiting))
+    });
+    let Some(Ok((keys_used, waiting))) = built else {
+        out.machinery_errors.push(format!("concurrent collection: template build failed: {built:?}"));
+        return json!({});
+    };
+    if waiting != 2 {
+        out.machinery_errors.push(format!("concurrent collection: expected two waiting responses in the template, the proxy shows {waiting}"));
+        return json!({});
+    }
+    crate::keys::skip(keys_used + 8);
+    let bound = if tier.thorough { 3 } else { 2 };
+    let mut cov = Vec::new();
+    for variant in ["same-key", "two-keys"] {
+        let xroot = root.join(variant);
+        std::fs::create_dir_all(&xroot).unwrap();
+        let tpl = template.clone();
+        let stats = crate::e2::explore(&xroot, bound, if tier.thorough { 20_000 } else { 1_500 }, 16, std::time::Duration::from_secs(if tier.thorough { 600 } else { 20 }), false, &|prefix| {
+            collect_exec(&tpl, variant, prefix)
+        });
+        for m in &stats.machinery {
+            out.machinery_errors.push(format!("concurrent collection: {m}"));
+        }
+        let mut seen = std::collections::BTreeSet::new();
+        for (prefix, kind, detail, result) in &stats.violations {
+            if kind == "machinery" {
+                out.machinery_errors.push(format!("concurrent collection: {detail}"));
+                continue;
+            }
+            let key = format!("{kind}|{}", crate::e1::normalize(detail));
+            if !seen.insert(key.clone()) {
+                continue;
+            }
+            out.findings.push(crate::report::Finding {
+                signature: format!("{key} @ concurrent-collect={variant}"),
+                text: format!("[concurrent collection, {variant}] {kind}: {detail}; schedule {prefix:?}"),
+                replay: json!({"part": "concurrent-collect", "variant": variant, "schedule": prefix, "trace": result.trace, "outputs": result.outputs, "kind": kind, "detail": detail}),
+            });
+        }
+        cov.push(json!({
+            "variant": variant, "preemption_bound": bound, "schedules": stats.executions, "choice_points": stats.choice_points,
+            "distinct_outcomes": stats.distinct_outcomes, "cap_hit": stats.capped, "schedules_not_followed_exactly": stats.diverged,
+        }));
+    }
+    json!({"what": "responses for the harness-played child wait at the proxy; the child's requests (same key twice / one per key) arrive on two threads under the controlled scheduler: every waiting response is handed out exactly once and is gone afterwards", "variants": cov})
+}
+
 pub fn run(tier: &Tier, args: &[String]) -> i32 {
     let depth = crate::report::arg_value(args, "--depth").and_then(|d| d.parse().ok()).unwrap_or(if tier.thorough { 10 } else { 7 });
     let cap = crate::report::arg_value(args, "--cap").and_then(|d| d.parse().ok()).unwrap_or(if tier.thorough { 1800 } else { 50 });
@@ -597,6 +770,12 @@ pub fn run(tier: &Tier, args: &[String]) -> i32 {
             },
             &mut out,
         );
+    }
+    if only.is_none() && crate::report::arg_value(args, "--replay").is_none() {
+        let cc = run_concurrent_collect(tier, &mut out);
+        if let Some(c) = out.coverage.as_object_mut() {
+            c.insert("concurrent_collection".into(), cc);
+        }
     }
     out.finish()
 }
